@@ -623,15 +623,20 @@ class Pilot(object):
             # we will never see another state progression.  Raise an error
             # (unless we waited for this)
             if self.state in states:
-                return
+                return self.state
 
             # FIXME: do we want a raise here, really?  This introduces a race,
             #        really, on application level
             # raise RuntimeError("can't wait on a pilot in final state")
             return self.state
 
+        # wait for the *earliest* of the given states: if the pilot is in any
+        # later state, the earliest was passed.  Final states have the highest
+        # value and thus always end the wait.
+        check_val = min(rps._pilot_state_values[s] for s in states)
+
         start_wait = time.time()
-        while self.state not in states:
+        while rps._pilot_state_values[self.state] < check_val:
 
             time.sleep(0.1)
             if timeout and (timeout <= (time.time() - start_wait)):
